@@ -48,6 +48,9 @@ func runVariant(o *sim.Outcome, opt sim.RunOpt, st, prior *stream, schedSeed int
 }
 
 func runC09(t *sim.Tape, opt sim.RunOpt) *sim.Outcome {
+	if opt.Mode == "image_variants" {
+		return runC09Images(t, opt)
+	}
 	o := &sim.Outcome{}
 	st, err := drawStream(t, opt.Extra["repo"], 12000, true)
 	if err != nil {
@@ -169,6 +172,9 @@ const (
 )
 
 func runC08(t *sim.Tape, opt sim.RunOpt) *sim.Outcome {
+	if opt.Mode == "image_histories" {
+		return runC08Images(t, opt)
+	}
 	o := &sim.Outcome{}
 	st, err := drawStream(t, opt.Extra["repo"], 6000, false)
 	if err != nil {
